@@ -32,7 +32,8 @@ EXTENDS Naturals, FiniteSets, Sequences, TLC
 
 CONSTANTS Contents,      \* serialized contents (strings); equal content <=> equal bytes
           Keys,          \* catalogue keys addressed by the updates (run/target/algorithm combinations)
-          MaxUpd, MaxCrash, MaxClose, MaxPurge,
+          MaxUpd,        \* number of updates started
+          MaxEv,         \* number of environment events (crashes, clean shutdowns, purges): the finiteness bound
           RecordFirst
 
 NoName  == "-"
@@ -48,19 +49,24 @@ VARIABLES up,        \* a process has the database open
           uname,     \* the name computed by Digest
           uex,       \* what ExistsCheck saw
           pre,       \* contents in the store when this update began (history variable for NoveltyExact)
-          stg,       \* staging directory: bag of files by content (Partial = incomplete bytes)
+          orph,      \* staging directory: kinds (content / Partial = incomplete bytes) of the files left behind by
+                     \* crashed updates; the file of the update in progress is CurStg
           blobs,     \* store directory: name -> [c: content of the file, h: digest of the bytes in the file]
           prime,     \* catalogue as the running process sees it
           dprime,    \* catalogue as a process opening the files now would see it
-          last, nans,\* last reported flag [k, c, isnew], number of reports
-          nupd, ncrash, nclose, npurge
+          rep,       \* the flag reported by the step just taken: "new" / "old" ("none": the step was not an Answer)
+          nupd, nev
 
-vars == <<up, pc, uk, uc, uname, uex, pre, stg, blobs, prime, dprime, last, nans, nupd, ncrash, nclose, npurge>>
+vars == <<up, pc, uk, uc, uname, uex, pre, orph, blobs, prime, dprime, rep, nupd, nev>>
 
 Range(f)     == { f[x] : x \in DOMAIN f }
 Put(f, k, v) == [x \in DOMAIN f \cup {k} |-> IF x = k THEN v ELSE f[x]]
 Stored(b)    == { b[n].c : n \in DOMAIN b }
-NoRep        == [k |-> NoKey, c |-> "-", isnew |-> FALSE]
+\* the staging file of the update in progress
+CurStg       == IF pc = "made" THEN {Partial}
+                ELSE IF pc \in {"staged", "digested"} \/ (pc = "recorded" /\ RecordFirst) \/ pc = "checked" THEN {uc}
+                ELSE {}
+StgKinds     == orph \cup CurStg
 
 \* order of the server-side steps
 BeforeCheck  == IF RecordFirst THEN "recorded" ELSE "digested"
@@ -85,89 +91,87 @@ TypeOK ==
     /\ uk \in Keys \cup {NoKey} /\ uc \in Contents \cup {"-"}
     /\ uname \in Names \cup {NoName} /\ uex \in BOOLEAN
     /\ pre \subseteq Contents
-    /\ DOMAIN stg = Contents \cup {Partial} /\ \A x \in DOMAIN stg : stg[x] \in Nat
+    /\ orph \subseteq Contents \cup {Partial}
     /\ DOMAIN blobs \subseteq Names
     /\ \A n \in DOMAIN blobs : blobs[n].c \in Contents /\ blobs[n].h = Digest(blobs[n].c)
     /\ DOMAIN prime \subseteq Keys /\ Range(prime) \subseteq Names
     /\ DOMAIN dprime \subseteq Keys /\ Range(dprime) \subseteq Names
+    /\ rep \in {"none", "new", "old"}
     /\ (~up => prime = dprime /\ pc = "idle")
 
 Init ==
     /\ up = FALSE /\ pc = "idle"
     /\ uk = NoKey /\ uc = "-" /\ uname = NoName /\ uex = FALSE /\ pre = {}
-    /\ stg = [x \in Contents \cup {Partial} |-> 0]
+    /\ orph = {}
     /\ blobs = <<>> /\ prime = <<>> /\ dprime = <<>>
-    /\ last = NoRep /\ nans = 0
-    /\ nupd = 0 /\ ncrash = 0 /\ nclose = 0 /\ npurge = 0
+    /\ rep = "none"
+    /\ nupd = 0 /\ nev = 0
 
 Forget == uk' = NoKey /\ uc' = "-" /\ uname' = NoName /\ uex' = FALSE /\ pre' = {}
 
 Reopen ==
-    /\ ~up /\ up' = TRUE
-    /\ UNCHANGED <<pc, uk, uc, uname, uex, pre, stg, blobs, prime, dprime, last, nans, nupd, ncrash, nclose, npurge>>
+    /\ ~up /\ up' = TRUE /\ rep' = "none"
+    /\ UNCHANGED <<pc, uk, uc, uname, uex, pre, orph, blobs, prime, dprime, nupd, nev>>
 
 StageMk(k, c) ==
     /\ up /\ pc = "idle" /\ nupd < MaxUpd
     /\ pc' = "made" /\ uk' = k /\ uc' = c /\ uname' = NoName /\ uex' = FALSE
     /\ pre' = Stored(blobs)
-    /\ stg' = [stg EXCEPT ![Partial] = @ + 1]
-    /\ nupd' = nupd + 1
-    /\ UNCHANGED <<up, blobs, prime, dprime, last, nans, ncrash, nclose, npurge>>
+    /\ nupd' = nupd + 1 /\ rep' = "none"
+    /\ UNCHANGED <<up, orph, blobs, prime, dprime, nev>>
 
 StageWrite ==
     /\ up /\ pc = "made" /\ pc' = "staged"
-    /\ stg' = [stg EXCEPT ![Partial] = @ - 1, ![uc] = @ + 1]
-    /\ UNCHANGED <<up, uk, uc, uname, uex, pre, blobs, prime, dprime, last, nans, nupd, ncrash, nclose, npurge>>
+    /\ UNCHANGED <<up, uk, uc, uname, uex, pre, orph, blobs, prime, dprime, rep, nupd, nev>>
 
 DoDigest ==
     /\ up /\ pc = "staged" /\ pc' = "digested"
     /\ uname' = Digest(uc)                   \* digest of the bytes of the staged file
-    /\ UNCHANGED <<up, uk, uc, uex, pre, stg, blobs, prime, dprime, last, nans, nupd, ncrash, nclose, npurge>>
+    /\ UNCHANGED <<up, uk, uc, uex, pre, orph, blobs, prime, dprime, rep, nupd, nev>>
 
 ExistsCheck ==
     /\ up /\ pc = BeforeCheck /\ pc' = "checked"
     /\ uex' = (uname \in DOMAIN blobs)
-    /\ UNCHANGED <<up, uk, uc, uname, pre, stg, blobs, prime, dprime, last, nans, nupd, ncrash, nclose, npurge>>
+    /\ UNCHANGED <<up, uk, uc, uname, pre, orph, blobs, prime, dprime, rep, nupd, nev>>
 
 Move ==
-    /\ up /\ pc = "checked" /\ pc' = "moved"
-    /\ stg' = [stg EXCEPT ![uc] = @ - 1]
+    /\ up /\ pc = "checked" /\ pc' = "moved"                               \* the staged file leaves the staging directory
     /\ blobs' = IF uex THEN blobs                                           \* identical content is there: discard the staged copy
-                ELSE Put(blobs, uname, [c |-> uc, h |-> Digest(uc)])      \* rename of the staged file
-    /\ UNCHANGED <<up, uk, uc, uname, uex, pre, prime, dprime, last, nans, nupd, ncrash, nclose, npurge>>
+                ELSE Put(blobs, uname, [c |-> uc, h |-> Digest(uc)])      \* rename of the staged file into the store
+    /\ UNCHANGED <<up, uk, uc, uname, uex, pre, orph, prime, dprime, rep, nupd, nev>>
 
 Record(reach) ==
     /\ up /\ pc = BeforeRecord /\ pc' = "recorded"
     /\ prime' = Put(prime, uk, uname)
     /\ dprime' = IF reach THEN Put(dprime, uk, uname) ELSE dprime
-    /\ UNCHANGED <<up, uk, uc, uname, uex, pre, stg, blobs, last, nans, nupd, ncrash, nclose, npurge>>
+    /\ UNCHANGED <<up, uk, uc, uname, uex, pre, orph, blobs, rep, nupd, nev>>
 
 Answer ==
     /\ up /\ pc = BeforeAnswer /\ pc' = "idle"
-    /\ last' = [k |-> uk, c |-> uc, isnew |-> ~uex]
-    /\ nans' = nans + 1
+    /\ rep' = IF uex THEN "old" ELSE "new"                                  \* isnew = not exists
     /\ Forget
-    /\ UNCHANGED <<up, stg, blobs, prime, dprime, nupd, ncrash, nclose, npurge>>
+    /\ UNCHANGED <<up, orph, blobs, prime, dprime, nupd, nev>>
 
 Crash(site) ==
-    /\ up /\ ncrash < MaxCrash /\ site \in Sites(pc)
-    /\ up' = FALSE /\ pc' = "idle" /\ Forget
+    /\ up /\ nev < MaxEv /\ site \in Sites(pc)
+    /\ up' = FALSE /\ pc' = "idle" /\ Forget /\ rep' = "none"
+    /\ orph' = StgKinds                       \* the staged file of the dead update stays behind
     /\ prime' = dprime                        \* what was only in memory is gone; files stay as they are
-    /\ ncrash' = ncrash + 1
-    /\ UNCHANGED <<stg, blobs, dprime, last, nans, nupd, nclose, npurge>>
+    /\ nev' = nev + 1
+    /\ UNCHANGED <<blobs, dprime, nupd>>
 
 Close ==
-    /\ up /\ pc = "idle" /\ nclose < MaxClose
-    /\ up' = FALSE /\ dprime' = prime
-    /\ nclose' = nclose + 1
-    /\ UNCHANGED <<pc, uk, uc, uname, uex, pre, stg, blobs, prime, last, nans, nupd, ncrash, npurge>>
+    /\ up /\ pc = "idle" /\ nev < MaxEv
+    /\ up' = FALSE /\ dprime' = prime /\ rep' = "none"
+    /\ nev' = nev + 1
+    /\ UNCHANGED <<pc, uk, uc, uname, uex, pre, orph, blobs, prime, nupd>>
 
 Purge ==
-    /\ ~up /\ npurge < MaxPurge
+    /\ ~up /\ nev < MaxEv
     /\ blobs' = IF DOMAIN dprime = {} THEN blobs                              \* "Aborting purge because found NO keys"
                 ELSE [n \in DOMAIN blobs \cap Range(dprime) |-> blobs[n]]
-    /\ npurge' = npurge + 1
-    /\ UNCHANGED <<up, pc, uk, uc, uname, uex, pre, stg, prime, dprime, last, nans, nupd, ncrash, nclose>>
+    /\ nev' = nev + 1
+    /\ UNCHANGED <<up, pc, uk, uc, uname, uex, pre, orph, prime, dprime, rep, nupd>>
 
 Next ==
     \/ Reopen
@@ -194,13 +198,11 @@ NoDangling ==
 
 \* identical content is kept once ...
 SingleCopy == \A m, n \in DOMAIN blobs : blobs[m].c = blobs[n].c => m = n
-\* ... and is kept: after an answered update exactly one stored file holds its content
-KeptStep == nans' # nans => Cardinality({ n \in DOMAIN blobs' : blobs'[n].c = uc }) = 1
+\* ... and it is kept: when an update is answered exactly one stored file holds its content
+KeptStep == rep' # "none" => Cardinality({ n \in DOMAIN blobs' : blobs'[n].c = uc }) = 1
 Kept == [][KeptStep]_vars
 
 \* reported new <=> identical content was not in the store before this update began
-NoveltyStep == nans' # nans => (last'.isnew <=> uc \notin pre)
+NoveltyStep == rep' # "none" => (rep' = "new" <=> uc \notin pre)
 NoveltyExact == [][NoveltyStep]_vars
-
-\* a crash neither creates nor destroys stored files (used for drift, implied by Crash)
 =============================================================================
